@@ -189,11 +189,37 @@ def _c15(ctx):
     return [_t1(ctx, 'aux', None, 450), tab.rule_T2(ctx)]
 
 
+def _c08(ctx):
+    from .rules import poly, eff
+    p1 = eff.rule_E1(ctx, scope=[NSP + 'PolygonAreaT', NSP + 'Accumulator'], floor=15)
+    p1.rule = 'P1'
+    p1.title = 'tentative queries cannot change the polygon: no const method of PolygonAreaT / Accumulator can write ' \
+               'object state (no mutable member, pointee or static reachable)'
+    for f in p1.findings:
+        f.rule = 'P1'
+    return [p1, poly.rule_P2(ctx), poly.rule_P3(ctx), poly.rule_P4(ctx), poly.rule_P5(ctx)]
+
+
+def _c20(ctx):
+    from .rules import cache, eff, exc
+    k = cache.rule_K(ctx)
+    k4 = eff.rule_E1(ctx, scope=[NSP + 'Geoid'], floor=20)
+    k4.rule = 'K4'
+    k4.title = 'thread-safe guard: every write to mutable Geoid state from a const method is on paths with !_threadsafe ' \
+               '(and _threadsafe is set only after CacheAll() and _file.close())'
+    for f in k4.findings:
+        f.rule = 'K4'
+    x1, nthrow, ncatch = exc.rule_X1(ctx, SCOPES['C20'])
+    x1.floor('throw sites', nthrow, FLOORS['C20']['throws'])
+    return [k, k4, cache.rule_K5(ctx), cache.rule_K6(ctx), cache.rule_T5(ctx), x1]
+
+
 CHECKS = {
     'C01': _c01,
     'C03': _c03,
     'C02': _c02,
     'C06': _c06,
+    'C08': _c08,
     'C12': _c12,
     'C09': _c09,
     'C15': _c15,
@@ -203,6 +229,7 @@ CHECKS = {
     'C13': _c13,
     'C14': _c14,
     'C18': _c18,
+    'C20': _c20,
 }
 
 
